@@ -7,3 +7,27 @@ package types
 // It is assumed to be a function of the header's fields and of byte-slice contents only.
 //@ func (*Header).Hash   pure trusted
 //@   opt reads=Header,[]byte
+
+// Abstract signer identity (T5, crypto): the node id that ecrecover yields for a hash and the bytes of a signature.
+// It is uninterpreted and in particular NOT assumed injective in the signature (ECDSA signatures are malleable).
+//@ spec func nodeKeyOf(h common.Hash, sig [0]byte) [0]byte
+//@ spec func recoverOK(h common.Hash, sig [0]byte) bool
+
+//@ func (SignData).RecoverNodeID   pure trusted
+//@   opt heap-independent
+//@   ensures result1 == nil <==> recoverOK(hash, content(sd))
+//@   ensures result1 == nil ==> len(result0) == 64 && content(result0) == nodeKeyOf(hash, content(sd))
+//@   ensures result1 != nil ==> isNil(result0)
+
+//@ func (*Header).SignerNodeID   trusted
+//@   modifies h.signerNodeID
+//@   ensures result1 == nil <==> recoverOK(h.Hash(), content(h.SignData))
+//@   ensures result1 == nil ==> len(result0) == 64 && content(result0) == nodeKeyOf(h.Hash(), content(h.SignData))
+//@   ensures result1 != nil ==> isNil(result0)
+
+//@ func (*Block).IsConfirmExist   pure
+//@   props C03
+//@   requires b != nil && b.Header != nil
+//@   ensures result <==> (content(b.Header.SignData) == content(sig) || exists(i, 0, len(b.Confirms), b.Confirms[i] == sig))
+//@   invariant @loop 0: 0 <= $k && $k <= len(b.Confirms) && forall(i, 0, $k, b.Confirms[i] != sig)
+//@   nopanic
